@@ -184,6 +184,56 @@ func c09(p *P) {
 	p.fieldWriters("C09.R3", "Store", "latestCertificate", "certstore.open", "certstore.Store.Put")
 	p.fieldWriters("C09.R3", "Store", "latestPowerTable", "certstore.OpenOrCreateStore", "certstore.CreateStore", "certstore.OpenStore", "certstore.Store.Put")
 
+	// R3 at open: with a latest certificate L the in-memory table is the table of instance L+1, whatever L is
+	// relative to the first instance (decided for L < first, L = first, L > first); only without one the initial table.
+	for _, name := range []string{"certstore.OpenStore", "certstore.OpenOrCreateStore"} {
+		of := p.fn("C09.R3", name)
+		if of == nil {
+			continue
+		}
+		for _, rel := range []Rel{RelLT, RelEQ, RelGT} {
+			relName := map[Rel]string{RelLT: "<", RelEQ: "=", RelGT: ">"}[rel]
+			inj := canonIs("", `\.latestCertificate$`, avNonNil).with(cmpRel("", `\.latestCertificate\.GPBFTInstance$`, `(\.firstInstance|^\$2|readInstanceNumber\(.*\)#0)$`, rel)).all(of)
+			s := RunSCCP(of, inj)
+			n := 0
+			for _, fs := range fieldStores(of, false, "Store", "latestPowerTable") {
+				if !s.Reachable(fs.Store) {
+					continue
+				}
+				n++
+				construct := fmt.Sprintf("%s: with a latest certificate L (L %s first instance) the head table is GetPowerTable(L+1)", name, relName)
+				bad := ""
+				for _, val := range altsUnder(s, fs.Store.Val) {
+					ex, ok := val.(*ssa.Extract)
+					var call *ssa.Call
+					if ok {
+						call, _ = ex.Tuple.(*ssa.Call)
+					}
+					if call == nil || call.Call.StaticCallee() == nil || funcName(call.Call.StaticCallee()) != "certstore.Store.GetPowerTable" || len(call.Call.Args) < 3 {
+						bad = "head table is " + canon(val)
+						continue
+					}
+					for _, a := range altsUnder(s, call.Call.Args[2]) {
+						l := linOf(a)
+						okLin := l.C == 1 && len(l.T) == 1
+						for sym, k := range l.T {
+							if k != 1 || !strings.HasSuffix(sym, ".latestCertificate.GPBFTInstance") {
+								okLin = false
+							}
+						}
+						if !okLin {
+							bad = "head table is that of instance " + canon(a)
+						}
+					}
+				}
+				r.Check(bad == "", "C09.R3", construct, p.c.InstrPos(fs.Store), "GetPowerTable(latest.GPBFTInstance + 1)", bad+" — after reopening, the store would serve a stale power table for the next instance and reject the valid successor")
+			}
+			if n == 0 {
+				r.Undecided("C09.R3", name+": head table at open (L "+relName+" first)", "no reachable write of latestPowerTable")
+			}
+		}
+	}
+
 	// R4 Subscribe
 	if sub := p.fn("C09.R4", "certstore.Store.Subscribe"); sub != nil {
 		n := 0
@@ -370,7 +420,82 @@ func c09(p *P) {
 			r.Undecided("C09.R7", "certstore.Store.GetRange: read loop", "expected one datastore Get")
 		}
 		p.guarded("C09.R7", gr, callSinks(gr, "read", "iface:Datastore.Get"), cmpRel("start ≤ end", `^\$2$`, `^\$3$`, RelGT))
+		// completeness: the range is reported complete only if end − start + 1 certificates were found
+		want := linOf(gr.Params[3]).add(linOf(gr.Params[2]), -1)
+		want.C++
+		found, bad := 0, ""
+		allValues(gr, func(v ssa.Value) {
+			b, ok := v.(*ssa.BinOp)
+			if !ok || !(b.Op == token.LSS || b.Op == token.GTR || b.Op == token.LEQ || b.Op == token.GEQ || b.Op == token.EQL || b.Op == token.NEQ) {
+				return
+			}
+			for _, pair := range [][2]ssa.Value{{b.X, b.Y}, {b.Y, b.X}} {
+				if !strings.HasPrefix(canon(pair[0]), "len(") {
+					continue
+				}
+				o := pair[1]
+				if cv, ok := o.(*ssa.Convert); ok {
+					o = cv.X
+				}
+				if call, ok := o.(*ssa.Call); ok {
+					if bi, ok := call.Call.Value.(*ssa.Builtin); ok && bi.Name() == "cap" {
+						for _, mk := range makeSlicesOf(call.Call.Args[0]) {
+							found++
+							if got := linOf(mk.Cap); !got.equal(want) {
+								bad = "expected count is the capacity " + got.String() + " of " + canon(mk)
+							}
+						}
+						continue
+					}
+				}
+				if l := linOf(o); len(l.T) > 0 && l.equal(want) {
+					found++
+				}
+			}
+		})
+		if found == 0 {
+			// alternative idiom: the scan variable compared with end after the loop
+			for _, in := range instrsOf(gr) {
+				if b, ok := in.(*ssa.BinOp); ok && !inLoop(b) && (strings.HasPrefix(canon(b.X), "phi($2|") && canon(b.Y) == "$3" || strings.HasPrefix(canon(b.Y), "phi($2|") && canon(b.X) == "$3") {
+					found++
+				}
+			}
+		}
+		if found == 0 {
+			r.Undecided("C09.R7", "certstore.Store.GetRange: complete only with end − start + 1 certificates", "the comparison deciding completeness was not recognised")
+		} else {
+			r.Check(bad == "", "C09.R7", "certstore.Store.GetRange: complete only with end − start + 1 certificates", p.c.Pos(gr.Pos()), want.String(), bad+" — a range with a missing certificate could be reported complete (or a complete one as missing)")
+		}
 	}
+}
+
+// makeSlicesOf: the MakeSlice instructions a slice value may originate from (through phis, appends and reslices).
+func makeSlicesOf(v ssa.Value) []*ssa.MakeSlice {
+	seen := map[ssa.Value]bool{}
+	var out []*ssa.MakeSlice
+	var walk func(x ssa.Value)
+	walk = func(x ssa.Value) {
+		if x == nil || seen[x] {
+			return
+		}
+		seen[x] = true
+		switch y := x.(type) {
+		case *ssa.MakeSlice:
+			out = append(out, y)
+		case *ssa.Phi:
+			for _, e := range y.Edges {
+				walk(e)
+			}
+		case *ssa.Slice:
+			walk(y.X)
+		case *ssa.Call:
+			if bi, ok := y.Call.Value.(*ssa.Builtin); ok && bi.Name() == "append" {
+				walk(y.Call.Args[0])
+			}
+		}
+	}
+	walk(v)
+	return out
 }
 
 // mustPassTo: along executable edges of s, is `target` reachable from entry without passing any `via` instruction?
